@@ -145,7 +145,10 @@ def check_main(prop, tier, seed, a):
     done = sum(1 for r in results if r is not None)
     if errors:
         for i, msg in errors[:3]:
-            print(f'task {i} ({tasks[i]["type"]} seed {tasks[i]["seed"]}): {msg[:1500]}')
+            if i < 0:
+                print(msg[:2000])
+            else:
+                print(f'task {i} ({tasks[i]["type"]} seed {tasks[i]["seed"]}): {msg[:1500]}')
         return harness_error(f'{len(errors)} task(s) failed inside the harness')
     if done == 0:
         return harness_error('no task completed')
